@@ -24,7 +24,7 @@ def sweep(tag, name, *args, asan=False):
 
 # ---------------------------------------------------------------- tables
 
-T_AMBIG = "+TA:UW;+TB:UR,vu1rw;Z:UT;+TAB:W"          # ambiguous '+', '+T', '+TA' exact-vs-prefix of +TAB
+T_AMBIG = "+TA:UW;+TB:UR,vu1rw;+TAB:W;Z:UT"          # ambiguous '+', '+T' (last table entry not among the matches), '+TA' exact-vs-prefix of +TAB
 T_APT = ["A:U;AP:UW;+TEST:URWT", "AP:UW;A:U;+TEST:URWT", "+TEST:URWT;AP:UW;A:U", "A:U;+TEST:URWT;AP:UW", "AP:UW;+TEST:URWT;A:U", "+TEST:URWT;A:U;AP:UW"]
 T_IMPL = "D:W,i;+O:T,o,vu1rw;+X:U;+OX:R"             # implicit write, only-test, exact/prefix pair
 
@@ -250,7 +250,8 @@ def c16_shards(tier):
     for ring in (1, 2):
         for sm, nm in ((1, "run"), (2, "read"), (4, "write")):
             sh.append(duplex("mutex-%s-r%d" % (nm, ring), ring, ring - 1, 2 if quick else 3, "C16", "C16",
-                             extra=dict(mutex=1, faults=1, h_trigger=0, act="trigger,hold,queries", suffix_mask=sm, ev="+u:R,+h:R,+d:R", crlf=0, max_name=2)))
+                             extra=dict(mutex=1, faults=1, h_trigger=0, act="trigger,hold,queries", suffix_mask=sm, ev="+u:R,+h:R,+t:T,+d:R", crlf=0, max_name=2,
+                                        ecodes_R="OK,DATA_OK,DATA_NEXT,HEXIT_OK,HEXIT_ERR", ecodes_T="OK,DATA_OK,HEXIT_OK,HEXIT_ERR", codes_T="OK,DATA_OK", codes_R="OK,DATA_OK,DATA_NEXT")))
     return sh
 
 
@@ -295,6 +296,11 @@ def c20_shards(tier):
             sh.append(mcx("history-cap%d-sh%d-lc%d" % (cap, shared, lower), prop="C20", table=T_HIST, cap=cap, shared=shared, name_alpha="+SRUD", max_name=3 if quick else 4,
                           args_alpha=aa, max_args=ma, D=1, dev=DEV, lines=0, crlf=1, blank=1, lower=lower, refuse_read=1, refuse_write=1,
                           codes_W="OK,ERROR", codes_R="DATA_OK,OK", codes_U="OK,LIST", codes_T="DATA_OK,LIST", max_inv=1, mon="C20"))
+    # lines whose handlers trigger unsolicited events: the event machine is busy while the response ends and the next line begins
+    for ring, shared in ((1, 0), (2, 1)):
+        sh.append(mcx("history-events-r%d" % ring, ring=ring, prop="C20", table=T_HIST + "||+e:vu1ro;+f:R", cap=8, shared=shared, name_alpha="+SRU", max_name=2, args_alpha="1", max_args=1,
+                      D=0, lines=0, crlf=1, blank=1, refuse_read=1, refuse_write=1, codes_W="OK", codes_R="DATA_OK", codes_U="OK", codes_T="DATA_OK", ecodes_R="DATA_OK,OK",
+                      max_inv=1, ev="+e:R,+f:R", h_trigger=1, mon="C20"))
     return sh
 
 
@@ -309,14 +315,14 @@ PLANS["C20"] = p_c20
 
 # ---------------------------------------------------------------- C09 gating
 
-T_GATE = "+A:U;+AB:UW,vu1rw/w;D:W,i|+ABC:UR,vu1rw/r;+O:T,o,vu1rw"
+T_GATE = "+A:U;+AB:UW,vu1rw/w;D:W,i;DL:UW|+ABC:UR,vu1rw/r;+O:T,o,vu1rw"
 
 
 def c09_shards(tier):
     quick = tier == "quick"
     sh = []
     for sm, nm in ((1, "run"), (2, "read"), (4, "write"), (8, "test")):
-        sh.append(mcx("gating-%s" % nm, prop="C09", table=T_GATE, cap=8, name_alpha="+ABCDO", max_name=4, args_alpha="1", max_args=1, suffix_mask=sm,
+        sh.append(mcx("gating-%s" % nm, prop="C09", table=T_GATE, cap=8, name_alpha="+ABCDOL", max_name=4, args_alpha="1", max_args=1, suffix_mask=sm,
                       D=0, lines=0, lower=0, refuse_read=0, refuse_write=0, codes_W="OK", codes_R="OK,DATA_OK", codes_U="OK,LIST", codes_T="OK", max_inv=1,
                       act="flags", flag_budget=3 if quick else 0, mon="C09"))
     return sh
@@ -325,7 +331,7 @@ def c09_shards(tier):
 def p_c09(tier):
     return {"shards": c09_shards(tier), "require": ["lines_done", "flag_flips", "implicit_hits", "ambiguous_lf", "list_lines"],
             "technique": "explicit-state model checking: any history of disable-flag flips at line boundaries (%s) interleaved with every line of the family; reference gating on every line" % ("<=3 flips" if tier == "quick" else "fixpoint: histories of any length, all 128 flag subsets"),
-            "bounds": "5 commands in 2 groups with prefix relations, implicit-write and only-test members; names <=4 over 6 symbols; four suffix forms",
+            "bounds": "6 commands in 2 groups with prefix relations (also a command whose name extends the implicit-write member's), implicit-write and only-test members; names <=4 over 7 symbols; four suffix forms",
             "assumptions": ["flags are flipped only between command lines"]}
 
 
@@ -385,7 +391,7 @@ PLANS["C05"] = p_c05
 
 
 def p_c06(tier):
-    sh = sw_shards("args", "C06", tier, 24)
+    sh = sw_shards("args", "C06", tier, 36)
     sh += [s for s in c10_shards("quick", mon="C06", prop="C06") if "cmd-R" in s["tag"] or "cmd-T" in s["tag"] or "evt" in s["tag"]]
     return {"shards": sh, "require": ["runs", "overlong", "lines_ok"],
             "technique": "exhaustive positional byte sweep on the real parser (write handlers) and explicit-state exploration of the return-code scenario (read/test handlers of both machines)",
@@ -455,7 +461,7 @@ def p_c03(tier):
         sh += sw_shards("bounds", "C03", tier, n, "--family", fam, asan=True, tagp="asan-bounds")
         sh += sw_shards("bounds", "C03", tier, max(2, n // 4), "--family", fam, tagp="canary-bounds")
     sh += sw_shards("buffers", "C03", tier, 32 if quick else 64, "--lite", 1 if quick else 0, asan=True, tagp="asan-buffers")
-    sh += sw_shards("args", "C03", tier, 24, "--lite", 1 if quick else 0, asan=True, tagp="asan-args")
+    sh += sw_shards("args", "C03", tier, 36, "--lite", 1 if quick else 0, asan=True, tagp="asan-args")
     sh += sw_shards("numeric", "C03", tier, 16, "--family", "bounds", asan=True, tagp="asan-numeric")
     sh += sw_shards("numeric", "C03", tier, 13, "--family", "all", "--maxlen", 4 if quick else 5, asan=True, tagp="asan-numeric")
     sh += sw_shards("describe", "C03", tier, 8, "--family", "vars", "--maxlen", 2, asan=True, tagp="asan-describe")
